@@ -15,5 +15,8 @@ pub use messages::{
     NUM_SOURCES,
 };
 
+#[cfg(datacake_verif)]
+pub use messages::PurgeDeletes;
+
 pub const CONSISTENCY_SOURCE_ID: usize = 0;
 pub const READ_REPAIR_SOURCE_ID: usize = 1;
